@@ -33,7 +33,7 @@ FarKinds(c) ==
     [] c = "UnitQuaternion" -> {"zero"}
 Kinds(c) == {"valid", "near"} \cup FarKinds(c) \cup (IF c = "UnitQuaternion" THEN {"nonunit"} ELSE {})
 
-Forms == {"bare", "list", "tuple"}
+Forms == {"bare", "list", "tuple", "array"}     \* "array": an N x 4 ndarray of quaternions (UnitQuaternion only, N >= 2)
 
 \* outcome of supplying the items `ks` (a sequence of kinds) to the constructor of class c
 Outcome(c, ks) ==
@@ -76,6 +76,7 @@ KindSeqs(c, n) == [1..n -> Kinds(c)]
 Construct(c, form, ks) ==
   /\ call.op = "none"
   /\ (form = "bare" => Len(ks) = 1)
+  /\ (form = "array" => c = "UnitQuaternion" /\ Len(ks) >= 2)
   /\ (c = "UnitQuaternion(R)" => form = "bare")        \* a list of matrices is not a documented form
   /\ call' = [op |-> "construct", cls |-> c, form |-> form, kinds |-> ks]
   /\ expect' = Outcome(c, ks)
